@@ -1,17 +1,22 @@
 import Katib.Base.Hex
 import Katib.Drv.C11
+import Katib.Drv.Status
 open Katib Katib.Drv
 
 /-- model output for one op line -/
 def handle (toks : List String) : String :=
   match toks with
   | "C11" :: r => handleC11 r
+  | "C05" :: r => handleStatus r
+  | "C03" :: r => handleStatus r
   | _ => "bad-op"
 
 /-- oracle verdict for one `op => observed-output` line -/
 def handleOracle (toks out : List String) : String :=
   match toks with
   | "C11" :: r => oracleLineC11 r out
+  | "C05" :: r => oracleLineStatus "C05" r out
+  | "C03" :: r => oracleLineStatus "C03" r out
   | _ => "bad-op"
 
 def splitArrow (toks : List String) : List String × List String :=
